@@ -119,7 +119,24 @@ def concretise(case, pres):
     tree = core.rename_atoms(case['f'], amap)
     F = None
     if case.get('F') is not None:
-        F = [set(vals[i] for i in P) for P in case['F']]
+        # the fairness constraints name states, so they go through the
+        # bijection like everything else; their order and container types
+        # are part of the presentation too (a set of frozensets is iterated
+        # in hash order, i.e. in an order the hash seed decides)
+        fidx = pres.get('Fperm')
+        if fidx is None:
+            fidx = list(range(len(case['F'])))
+        outer = pres.get('Fct') or 'list'
+        inner = frozenset if (pres.get('Fin') == 'frozenset' or
+                              outer in ('set', 'frozenset')) else set
+        F = []
+        for j in fidx:
+            P = list(case['F'][j])
+            fr = pres.get('Frot', 0)
+            if P and fr:
+                P = P[fr % len(P):] + P[:fr % len(P)]
+            F.append(inner(vals[i] for i in P))
+        F = cast(F, outer)
     index_of = {}
     for i, v in enumerate(vals):
         index_of[v] = i
@@ -242,6 +259,15 @@ def gen_presentation(rng, case, cfg):
             'R': rng.choice(['list', 'tuple', 'set']),
             'S0': rng.choice(['list', 'set', 'tuple']),
             'lab': rng.choice(['list', 'tuple', 'set', 'frozenset'])}
+    if case.get('F') is not None:
+        if 'order' in kinds:
+            fp = list(range(len(case['F'])))
+            rng.shuffle(fp)
+            pres['Fperm'] = fp
+            pres['Frot'] = rng.randrange(3)
+        if 'ctype' in kinds:
+            pres['Fct'] = rng.choice(['list', 'tuple', 'set', 'frozenset'])
+            pres['Fin'] = rng.choice(['set', 'frozenset'])
     if 'bijection' in kinds and rng.random() < 0.4:
         pres['fresh'] = True
     if ('ctype' in kinds or 'order' in kinds) and rng.random() < 0.3:
